@@ -40,6 +40,43 @@ def summary (f : Family) (raw : Bytes) (vs : List (Nat × Val)) : String × Opti
   let pushed := !v1 && (fieldOf cfg.tabs tn 0x04 vs).isSome
   (s!"resp={if resp.isSome then 1 else 0} id={id} st={st} conf={if confInResp then 1 else 0} cb={if pushed then 1 else 0}", resp, pushed)
 
+def reqCase (rq fam ver alg login key cb : String) (ow : List String) : String :=
+  match ver.toNat?, alg.toNat?, ofHex login, ofHex key with
+  | some v, some a, some lg, some k =>
+    let f : Family := if fam == "aggr" then .aggr else .ext
+    -- oracle on the bytes the implementation handed to the transport: they parse as a request PDU of
+    -- the configured version, carry the login id, and the MAC is RFC 2104 under the key and the
+    -- configured algorithm over the authenticated range, recomputed here
+    let spec : Option String := match ow with
+      | ["0", rq] =>
+        match ofHex rq with
+        | none => some "unreadable-request"
+        | some raw =>
+          let parsed := match f with | .aggr => parseAggrPdu cfg v raw | .ext => parseExtPdu cfg v raw
+          match parsed with
+          | .error e => some s!"request-does-not-parse:{e}"
+          | .ok vs =>
+            let rootTag := match Tlv.memRead raw with | .ok h => h.tag | .error _ => 0
+            let w := view cfg.tabs f rootTag vs
+            let hdrLogin := match fieldOf cfg.tabs (pduTable f rootTag) 0x01 vs with
+              | some (.obj fs) => match fieldOf cfg.tabs "KSI_Header" 0x01 fs with | some (.str s) => some s | _ => none
+              | _ => none
+            if hdrLogin != some (lg ++ [0]) then some "login-id-not-in-the-header"
+            else if !w.request && (cb.toNat?.getD 0) < 4 then some "no-request-in-the-pdu"
+            else match w.hmac with
+              | none => some "request-without-mac"
+              | some mac =>
+                if (mac.headD 0).toNat != a then some "mac-not-under-the-configured-algorithm"
+                else match calcHmac Hreal f v a k raw w with
+                  | .error e => some s!"mac-not-recomputable:{e}"
+                  | .ok want => if want == mac then none else some "request-mac-is-not-the-hmac-of-the-authenticated-range"
+      | _ => none
+    match spec with
+    | some why => s!"specfail {rq}:{fam}:v{v}:a{a}:cb{cb} {why}"
+    | none => s!"ok {rq}:{fam}:v{v}:a{a}:cb{cb}:{ow.headD "?"}"
+  | _, _, _, _ => "skip bad-args"
+
+
 def handle (inp out : String) : String :=
   let ow := words out
   match words inp with
@@ -51,41 +88,8 @@ def handle (inp out : String) : String :=
         | .ok imp => s!"0 0 {toHex imp} 0 {toHex imp} 0 {toHex imp}"
       verdict s!"hmac:a{a}:k{if k.length < 64 then "lt" else if k.length == 64 then "eq64" else if k.length ≤ 128 then "le128" else "gt"}:{ow.headD "?"}" ms out none
     | _, _, _ => "skip bad-args"
-  | ["req", fam, ver, alg, login, key, cb] =>
-    match ver.toNat?, alg.toNat?, ofHex login, ofHex key with
-    | some v, some a, some lg, some k =>
-      let f : Family := if fam == "aggr" then .aggr else .ext
-      -- oracle on the bytes the implementation handed to the transport: they parse as a request PDU of
-      -- the configured version, carry the login id, and the MAC is RFC 2104 under the key and the
-      -- configured algorithm over the authenticated range, recomputed here
-      let spec : Option String := match ow with
-        | ["0", rq] =>
-          match ofHex rq with
-          | none => some "unreadable-request"
-          | some raw =>
-            let parsed := match f with | .aggr => parseAggrPdu cfg v raw | .ext => parseExtPdu cfg v raw
-            match parsed with
-            | .error e => some s!"request-does-not-parse:{e}"
-            | .ok vs =>
-              let rootTag := match Tlv.memRead raw with | .ok h => h.tag | .error _ => 0
-              let w := view cfg.tabs f rootTag vs
-              let hdrLogin := match fieldOf cfg.tabs (pduTable f rootTag) 0x01 vs with
-                | some (.obj fs) => match fieldOf cfg.tabs "KSI_Header" 0x01 fs with | some (.str s) => some s | _ => none
-                | _ => none
-              if hdrLogin != some (lg ++ [0]) then some "login-id-not-in-the-header"
-              else if !w.request then some "no-request-in-the-pdu"
-              else match w.hmac with
-                | none => some "request-without-mac"
-                | some mac =>
-                  if (mac.headD 0).toNat != a then some "mac-not-under-the-configured-algorithm"
-                  else match calcHmac Hreal f v a k raw w with
-                    | .error e => some s!"mac-not-recomputable:{e}"
-                    | .ok want => if want == mac then none else some "request-mac-is-not-the-hmac-of-the-authenticated-range"
-        | _ => none
-      match spec with
-      | some why => s!"specfail req:{fam}:v{v}:a{a}:cb{cb} {why}"
-      | none => s!"ok req:{fam}:v{v}:a{a}:cb{cb}:{ow.headD "?"}"
-    | _, _, _, _ => "skip bad-args"
+  | ["req", fam, ver, alg, login, key, cb] => reqCase "req" fam ver alg login key cb ow
+  | ["requ", fam, ver, alg, login, key, cb] => reqCase "requ" fam ver alg login key cb ow
   | ["resp", fam, ver, calg, key, reply, auth] =>
     match ver.toNat?, ofHex key, ofHex reply with
     | some v, some k, some raw =>
